@@ -128,3 +128,16 @@ Theorem C17_chain_terminates : forall b payloads fs, 1 <= b -> fs <> [] ->
   forall sched c, chain_run b sched (chain_init b payloads fs) = Some c ->
   length sched + chain_measure b payloads c <= chain_measure b payloads (chain_init b payloads fs).
 Proof. exact chain_schedules_bounded. Qed.
+
+(* util::stream::Stream (the record-level view of a worker's blocks): reading to the end delivers exactly the records of
+   the blocks received, in order -- for every sequence of blocks, in particular with any runs of empty blocks (valid size 0)
+   at the start, in the middle or before the poison, as left behind by stages that compact blocks in place *)
+Theorem C17_stream_records : forall bl : list payload, stream_records bl = concat bl.
+Proof. exact stream_records_concat. Qed.
+
+(* ... hence, with C17_chain: a Stream consumer at any position of a finished chain has read the concatenation of the
+   payloads of its whole stream *)
+Theorem C17_stream_consumer : forall b payloads fs, 1 <= b -> fs <> [] ->
+  forall c, chain_reachable b payloads fs c -> mainp c = MDone -> forall pre s post, segs c = pre ++ s :: post ->
+  stream_records (payloads_of (sseen s)) = concat (payloads_of (stream_into payloads (firstn (length pre) fs))).
+Proof. exact stream_consumer. Qed.
